@@ -17,6 +17,7 @@ MODULES = {
     "signature": ("lib", "src/account/signature.rs", "account::signature"),
     "cmd_new": ("bin", "src/cmd/new.rs", "cmd::new"),
     "cmd": ("bin", "src/cmd.rs", "cmd"),
+    "cmd_sign": ("bin", "src/cmd/sign.rs", "cmd::sign"),
 }
 
 # harness files that need another harness file spliced as well
@@ -31,11 +32,6 @@ HARNESSES = []
 PRECHECKS = {"C01": [prechecks.wordlist_contract], "C12": [prechecks.wordlist_contract]}
 # properties whose claim was withdrawn because no query terminates under the caps: id -> reason (goes to not_applicable)
 WITHDRAWN = {
-    "C19": "withdrawn after measurement: cmd::permissive_hex collects the whitespace-filtered characters into a String "
-           "(`chars().filter().collect()`), a chain of pushes with symbolic lengths; with `hex::decode` abstracted away, inputs of 0 and 2 "
-           "symbolic ASCII bytes are decided (2.1 GB / 8 GB) but 3 bytes already exceed the 14 GB cap, with the real decoder even the empty "
-           "input needs > 9 GB; a bound of two characters cannot exercise the property (prefix + digits + whitespace), so nothing is claimed; "
-           "the harnesses c19_* are kept in the registry (property tag X19) as documented attempts",
     "C02": "withdrawn after measurement: Mnemonic::seed builds the salt with format!() and unicode-normalization's Display-based "
            "to_string(); both go through `dyn fmt::Write`, which CBMC resolves to every Write implementor in the program (including "
            "core's PadAdapter with its memchr splitting loops): the query with the EMPTY passphrase and a symbolic entropy buffer did "
@@ -50,6 +46,9 @@ FMT_STUBS = ["alloc::fmt::format -> empty String (error messages are outside the
              "std::backtrace::Backtrace::capture -> disabled",
              "core::slice::memchr::{memchr_aligned, memrchr} -> naive reference loops with the same contract (the library versions do "
              "pointer-alignment arithmetic on addresses CBMC treats as symbolic)"]
+
+
+NOFMT = ["core::fmt::write -> writes nothing (the text of error messages is outside the claim; only Ok/Err is decided)"]
 
 
 def H(name, file, props, tiers=(Q, T), timeout=600, **meta):
@@ -487,6 +486,140 @@ H("c19_filter_unicode_ws", "cmd", ["X19"], timeout=1800, mem_gb=14,
   functions=["cmd::permissive_hex"], inputs="four ASCII bytes with U+2003 at a symbolic position", bound="7 bytes",
   stubs=HEX_STUB, spec="Unicode whitespace is removed anywhere, including inside the prefix")
 
+CAP_STUBS = ["alloc::string::String::{new, push, push_str} -> fixed pre-allocation of 64 bytes and in-place append (String's growth "
+             "policy is std's and trusted; exceeding the capacity is an assertion failure, never a truncation; contents and lengths "
+             "are unchanged)"]
+C19_OUT = ["stdin/stdout plumbing of cmd::hex::run (read_input, str::from_utf8, println!, write_all) is process-level and outside"]
+for n in (3, 4, 6, 8, 12, 16):
+    H(f"c19_filtercap_ascii_{n}", "cmd", ["C19", "C17"], timeout=900, mem_gb=6,
+      functions=["cmd::permissive_hex (whitespace filter closure, optional 0x prefix, result pass-through, into_boxed_slice)",
+                 "char::is_whitespace", "str::chars", "str::strip_prefix"],
+      inputs=f"every ASCII string of exactly {n} bytes; decoder verdict and decoded bytes symbolic", bound=f"{n} bytes, ASCII",
+      stubs=HEX_STUB + CAP_STUBS, trusted=["hex 0.4 decodes an even number of hex digits of either case and rejects anything else "
+                                           "(decided for short inputs in c19_hexcap_*)"], assumes=C19_OUT,
+      spec="exactly one decode, of the input with all whitespace removed and one optional leading 0x stripped; Ok bytes and "
+           "errors are passed through unchanged")
+H("c19_filtercap_unicode", "cmd", ["C19", "C17"], timeout=900, mem_gb=6,
+  functions=["cmd::permissive_hex", "char::is_whitespace (Unicode White_Space table)"],
+  inputs="nine symbolic ASCII bytes with one non-ASCII character (U+0085, U+00A0, U+2003, U+3000 = white space; U+00E9, U+200B = "
+         "not white space; symbolic choice) at a symbolic position; decoder verdict symbolic", bound="12 bytes",
+  stubs=HEX_STUB + CAP_STUBS, assumes=C19_OUT,
+  spec="Unicode white space is removed anywhere (also inside the prefix); other non-ASCII characters are handed to the decoder")
+H("c19_hexcap_ascii4", "cmd", ["C19", "C17"], timeout=1200, mem_gb=9,
+  functions=["cmd::permissive_hex", "hex::decode (real)", "char::is_whitespace"],
+  inputs="every ASCII string of 0..=4 bytes", bound="length <= 4, ASCII", stubs=CAP_STUBS, assumes=C19_OUT,
+  spec="strip whitespace, optional 0x, even number of hex digits of either case -> bytes; else Err")
+H("c19_hexcap_ascii6", "cmd", ["C19", "C17"], timeout=2400, mem_gb=12,
+  functions=["cmd::permissive_hex", "hex::decode (real)", "char::is_whitespace"],
+  inputs="every ASCII string of 0..=6 bytes", bound="length <= 6, ASCII", stubs=CAP_STUBS, assumes=C19_OUT,
+  spec="strip whitespace, optional 0x, even number of hex digits of either case -> bytes; else Err")
+H("c19_hexcap_unicode", "cmd", ["C19", "C17"], timeout=2400, mem_gb=12,
+  functions=["cmd::permissive_hex", "hex::decode (real)", "char::is_whitespace (Unicode White_Space table)"],
+  inputs="five symbolic ASCII bytes with one non-ASCII character (four white-space, two non-white-space; symbolic choice) at a "
+         "symbolic position", bound="8 bytes", stubs=CAP_STUBS, assumes=C19_OUT,
+  spec="as c19_hexcap_ascii; Unicode white space ignored anywhere, any other non-ASCII character refused")
+for l in (0, 1, 2, 3, 4, 8):
+    H(f"c19_respell_{l}", "cmd", ["C19", "C17"], timeout=2400, mem_gb=14,
+      functions=["hex::encode (real)", "cmd::permissive_hex", "hex::decode (real)"],
+      inputs=f"data: [u8; {l}] (all values); per-digit case flags, prefix present/absent, one ASCII white-space character at a "
+             "symbolic position (or none), trailing newline", bound=f"{l} bytes of data",
+      stubs=CAP_STUBS, assumes=C19_OUT,
+      spec="hex::encode gives two lower-case digits per byte; every respelling of '0x' + that + newline (case, prefix, inserted "
+           "white space) decodes to exactly the original bytes")
+
+# =========================================================================================== C06 with rlp::list as a recorder
+LIST_STUB = ["transaction::rlp::{uint, bytes} and AccessList::rlp_encode -> recorders (log kind, value, length; return a distinct one-byte "
+             "placeholder)",
+             "transaction::rlp::list -> recorder (logs first byte and length of every item, returns the placeholder 0xEE); its contract "
+             "(header(total) || items in order) is decided in c07_list_* / c07_iter_*"]
+K256_UNWIND = {"memcmp": 40, "k256": 34, "ecdsa": 34, "elliptic": 34, "bigint": 34, "generic_array": 34, "from_parts": 34,
+               "Signature": 34, "signature": 34, "U256": 34, "uint": 34}
+for nm, what in [("c06l_eip2930_unsigned", "EIP-2930, unsigned, one access-list entry"),
+                 ("c06l_eip2930_signed", "EIP-2930, signed, one access-list entry"),
+                 ("c06l_eip1559_unsigned", "EIP-1559, unsigned, one access-list entry"),
+                 ("c06l_eip1559_signed", "EIP-1559, signed, one access-list entry")]:
+    H(nm, "transaction", ["C06", "C11", "C17"], timeout=900, mem_gb=6, auto_unwind=K256_UNWIND,
+      functions=["transaction::Eip2930Transaction::rlp_encode" if "2930" in nm else "transaction::Eip1559Transaction::rlp_encode",
+                 "transaction::rlp::iter", "account::Signature::{y_parity, r, s}"],
+      inputs=what + ": every integer field symbolic (2^256 values each), recipient present/absent, 3 bytes of calldata, parity symbolic",
+      bound="calldata 3 bytes; r, s fixed non-trivial constants", stubs=LIST_STUB,
+      spec="type byte || ONE list of exactly [chainId, nonce, (gasPrice | maxPriorityFeePerGas, maxFeePerGas), gas, to-or-empty, value, data, "
+           "accessList] followed by [yParity, r, s] iff signed, each leaf the value of that field, in this order")
+H("c06l_eip1559_symdata", "transaction", ["C06", "C17"], timeout=900, mem_gb=6, auto_unwind=K256_UNWIND,
+  functions=["transaction::Eip1559Transaction::rlp_encode", "transaction::rlp::iter"],
+  inputs="as c06l_eip1559_signed with calldata of symbolic length 0..=40 and symbolic content and an access list of 0, 1 or 2 entries",
+  bound="calldata <= 40 bytes, access list <= 2 entries", stubs=LIST_STUB,
+  spec="the data leaf is handed exactly the calldata (length and first 32 bytes compared), the access-list leaf exactly the list")
+for nm in ["c06l_signing_message_eip2930", "c06l_signing_message_eip1559"]:
+    H(nm, "transaction", ["C06", "C11", "C17"], timeout=900, mem_gb=6, auto_unwind=K256_UNWIND,
+      functions=["transaction::Transaction::signing_message", "transaction::Transaction::rlp_encode"],
+      inputs="typed transaction with every integer field symbolic, recipient present/absent", bound="calldata 2 bytes, empty access list",
+      stubs=LIST_STUB + ["ethdigest::Digest::of -> uninterpreted recorder"], trusted=["Keccak-256 (ethdigest/sha3)"],
+      spec="exactly one Keccak over exactly the unsigned payload (type byte || list) built from the same leaves in the same order")
+H("c06l_encode_dispatch", "transaction", ["C06", "C17"], timeout=900, mem_gb=6, auto_unwind=K256_UNWIND,
+  functions=["transaction::Transaction::encode", "transaction::Transaction::rlp_encode"],
+  inputs="transaction kind symbolic (legacy with/without chain id, EIP-2930, EIP-1559), all integer fields symbolic, parity symbolic",
+  bound="calldata 2 bytes, empty access list", stubs=LIST_STUB,
+  spec="Transaction::encode(sig) produces the same leaves, the same list and the same output as the per-kind encoder with Some(sig)")
+for e, s0, s1 in [(0, 0, 0), (1, 0, 0), (1, 1, 0), (1, 2, 0), (2, 1, 0), (2, 0, 2), (2, 2, 2)]:
+    H(f"c06a_alist_{e}_{s0}_{s1}", "transaction", ["C06", "C07", "C17"], timeout=1500, mem_gb=24,
+      functions=["transaction::accesslist::AccessList::rlp_encode", "transaction::accesslist::StorageSlot::rlp_encode",
+                 "transaction::rlp::iter"],
+      inputs=f"{e} entries with {s0} and {s1} storage keys (shape concrete per query), addresses and keys symbolic",
+      bound="<= 2 entries x <= 2 keys", stubs=[LIST_STUB[1], "transaction::rlp::bytes -> recorder (logs the byte string, returns a placeholder)"],
+      spec="[[address, [key, ...]], ...]: per entry one list of its 32-byte keys, one two-item list [address, keys], one outer list of the "
+           "entries, everything in declaration order")
+H("c11_cli_guard", "cmd_sign", ["X11"], timeout=1500, mem_gb=9, auto_unwind=K256_UNWIND,
+  functions=["cmd::sign::run (Input::Transaction arm)"],
+  inputs="transaction kind symbolic (legacy with/without chain id, EIP-2930, EIP-1559), chain id one symbolic byte, --signature-only and "
+         "--allow-missing-relay-protection symbolic, JSON parser verdict symbolic, digest and signature parity symbolic",
+  bound="one invocation; field values other than the chain id fixed (the guard does not look at them)",
+  stubs=["cmd::AccountOptions::private_key -> fixed key (recorder)", "cmd::read_input -> empty input (recorder)",
+         "serde_json::from_slice::<Transaction> -> the harness' symbolic transaction or an error (recorder)",
+         "Transaction::signing_message -> symbolic digest (recorder; decided in C06)", "Transaction::encode -> placeholder, notes the "
+         "signature it is given (decided in C06)", "PrivateKey::sign -> records the digest, returns a signature of symbolic parity (C05: "
+         "cryptography, trusted)", "std::io::_print -> counts invocations", "hex::encode -> empty string"] + NOFMT,
+  spec="a legacy transaction without chain id is refused unless the override flag is given -- in BOTH output modes, before anything is "
+       "signed or printed; every other transaction is signed exactly once over its signing digest and exactly one line is printed; the "
+       "full output carries the signature just made; a parse error signs and prints nothing")
+H("c08_struct_hash", "typeddata", ["C08", "C09", "C17"], timeout=1800, mem_gb=14,
+  functions=["typeddata::Types::struct_hash", "serde_json::Map::{insert, remove, is_empty} (real BTreeMap)"],
+  inputs="struct T { bool a; string b } ; message object with a symbolic subset of the keys a, b (declared) and c (undeclared); typeHash, "
+         "member words and per-member encoding verdicts symbolic",
+  bound="two declared members, three candidate keys",
+  stubs=["typeddata::Types::type_definition -> table look-up", "typeddata::Types::type_hash -> recorder (symbolic typeHash; encodeType "
+         "itself is not decided)", "typeddata::Types::encode_value -> recorder (logs member and value, symbolic word or error; atoms "
+         "decided in c08_atom_* / c09_*)", "ethdigest::Digest::of -> uninterpreted recorder"],
+  spec="Ok iff exactly the declared members are present and every value encodes: one Keccak over typeHash || word(a) || word(b) in "
+       "declaration order, each value paired with its own member; missing / undeclared member or encoding error -> Err, nothing hashed")
+H("c06_kind_dispatch", "transaction", ["X06"], timeout=900, mem_gb=9,
+  functions=["<Transaction as Deserialize>::deserialize"], inputs="JSON object with a symbolic subset of seven keys",
+  bound="does not compile: Kani 0.68 internal compiler error in codegen_get_discriminant (niche of Result<Eip1559Transaction, _> "
+        "lives in Vec's capacity field, 2^63 does not fit the i64 Kani converts it to)", spec="kind selection by keys")
+
+# =========================================================================================== C13 string leaves (error text cut)
+for n, tiers in [(2, 0), (3, 0), (4, 0), (6, 0), (8, 0)]:
+    H(f"c13n_bytes_{n}", "serialization", ["C13", "C17"], timeout=1800, mem_gb=9,
+      functions=["serialization::bytes::deserialize::<serde_json::Value>", "hex::decode (real)", "str::strip_prefix"],
+      inputs=f"JSON string: every ASCII string of exactly {n} bytes", bound=f"{n} bytes", stubs=NOFMT,
+      spec="Ok iff 0x + an even number of hex digits of either case, value = those bytes; anything else Err")
+for n in (1, 2, 3, 4, 6):
+    H(f"c13n_numstr_{n}", "serialization", ["C13", "C17"], timeout=1800, mem_gb=9,
+      functions=["serialization::num::deserialize::<serde_json::Value>", "ethnum::serde::permissive (string visitor, real)"],
+      inputs=f"JSON string: every ASCII string of exactly {n} bytes", bound=f"{n} bytes", stubs=NOFMT,
+      spec="decimal digits or 0x + hex digits denote exactly that integer; everything else (empty, sign '-', spaces, bare 0x, non-digits) "
+           "is refused; a leading '+' is don't-care")
+for l in (31, 32, 33):
+    H(f"c13n_slot_{l}", "serialization", ["C13", "C17"], timeout=1800, mem_gb=9,
+      functions=["serialization::bytearray::deserialize::<serde_json::Value, 32>", "hex::decode_to_slice (real)"],
+      inputs=f"JSON string 0x + {l} symbolic bytes in hex (case symbolic)", bound=f"{l} bytes", stubs=NOFMT,
+      spec="a storage key is accepted iff it is exactly 32 bytes, value = those bytes")
+for l in (19, 20, 21):
+    H(f"c13n_address_{l}", "serialization", ["C13", "C17"], timeout=1800, mem_gb=9,
+      functions=["<Option<ethaddr::Address> as Deserialize>::deserialize::<serde_json::Value>"],
+      inputs=f"JSON string: [0x] + {l} symbolic bytes in lower-case hex", bound=f"{l} bytes", stubs=NOFMT,
+      spec="a recipient is accepted iff it is 0x + exactly 20 bytes, value = those bytes")
+
 for nm, tiers in [("c08_kind_width_uint", (Q, T)), ("c08_kind_width_int", (Q, T)), ("c08_kind_width_bytes", (Q, T)),
                   ("c08_kind_width_uint_array", (T,)), ("c08_kind_width_bytes_array", (Q, T))]:
     H(nm, "typeddata", ["C08", "C09", "C20", "C17"], tiers=tiers, timeout=1800, mem_gb=9,
@@ -498,6 +631,12 @@ for nm, tiers in [("c08_kind_width_uint", (Q, T)), ("c08_kind_width_int", (Q, T)
            "name (redundant leading zeros are don't-care)")
 
 
+for nm in ["c02_cap_empty", "c02_cap_ascii", "c02_cap_accent"]:
+    H(nm, "mnemonic", ["X02"], timeout=2400, mem_gb=14, files=["wordlist"], functions=["mnemonic::Mnemonic::seed"],
+      inputs="experiment", bound="experiment", spec="experiment")
+for nm in ["c08_encode_type_names_p_cap", "c08_encode_type_names_a_cap"]:
+    H(nm, "typeddata", ["X08"], timeout=2400, mem_gb=14, functions=["typeddata::Types::encode_type"],
+      inputs="experiment", bound="experiment", spec="experiment")
 for nm in ["empty", "ascii", "accent", "fullwidth", "ligature", "enclosed", "astral", "mark", "reorder", "compat_reorder", "hangul", "mixed"]:
     H(f"c02_fixed_{nm}", "mnemonic", ["X02"], tiers=(T,), timeout=1800, mem_gb=9, files=["wordlist"],
       functions=["mnemonic::Mnemonic::seed", "mnemonic::Mnemonic::to_phrase", "format!(\"mnemonic{}\") (real)",
@@ -580,7 +719,11 @@ c03_master_s64 c03_master_s65
 c04_new_00 c04_new_23 c04_new_31 c04_new_32 c04_new_33 c04_address c04_address_slicing
 c07_len c07_bytes_000 c07_bytes_001 c07_bytes_002 c07_bytes_055 c07_bytes_056 c07_bytes_057 c07_bytes_128 c07_bytes_symlen
 c07_uint c07_list_0_0_0 c07_list_20_20_15 c07_list_21_20_15 c07_iter_1_33_21 c07_list_empty c07_iter_100_100_56 c06_alist_empty
-c06_legacy_unsigned_nochain c06_legacy_unsigned_chain c06_legacy_signed_nochain c06_legacy_signed_chain c06_eip2930_unsigned
+c06_legacy_unsigned_nochain c06_legacy_unsigned_chain c06_legacy_signed_nochain c06_legacy_signed_chain
+c06l_eip2930_unsigned c06l_eip2930_signed c06l_eip1559_unsigned c06l_eip1559_signed c06l_signing_message_eip2930
+c06l_signing_message_eip1559 c06l_eip1559_symdata
+c19_filtercap_ascii_4 c19_filtercap_ascii_8 c19_filtercap_ascii_12 c19_filtercap_unicode c19_hexcap_ascii4 c19_respell_1
+c13n_bytes_2 c13n_bytes_4
 c06_signing_message_legacy_nochain c06_sig_accessors c11_v c11_v_kf_d7
 c08_final_digest c08_atom_string c08_atom_bytes_dynamic c09_uint_range c09_int_range
 c09_bytes1_len0 c09_bytes1_len1 c09_bytes1_len2 c09_bytes4_len3 c09_bytes31_len32 c09_bytes32_len31 c09_bytes32_len32 c09_bytes32_len33
@@ -599,7 +742,8 @@ c01_unpack_18 c01_unpack_21 c01_count_01 c01_count_02 c01_count_03 c01_count_06 
 c01_count_19 c01_count_20 c01_count_22 c01_count_26 c01_count_27 c01_count_30 c01_count_33 c01_count_36 c01_count_40
 c03_master_s16 c03_master_s32 c03_master_s96 c03_d1_hardened_s64 c03_d1_normal_s64
 c04_new_01 c04_new_16 c04_new_24 c04_new_40 c04_new_64
-c06_signing_message_legacy_chain
+c06_signing_message_legacy_chain c06_eip2930_unsigned c06l_encode_dispatch
+c19_filtercap_ascii_3 c19_filtercap_ascii_6 c19_filtercap_ascii_16 c19_hexcap_ascii6 c19_hexcap_unicode c19_respell_0
 c07_bytes_003 c07_bytes_020 c07_bytes_032 c07_bytes_033 c07_bytes_054 c07_bytes_064 c07_bytes_100 c07_bytes_255 c07_bytes_256
 c07_bytes_257 c07_list_1_0_2 c07_list_33_33_33 c07_iter_0_0_0
 c09_bytes4_len4 c09_bytes4_len5 c09_bytes31_len31
@@ -617,5 +761,5 @@ for _h in HARNESSES:
 C17_QUICK = set("""
 c01_len_table c01_count_14 c01_count_23 c01_count_25 c01_unpack_12 c12_random c04_new_32 c07_len c07_bytes_symlen
 c11_v c11_v_kf_d7 c14_component c15_parse_other_lengths c15_parse_132 c13_numstr_0 c18_prefix_5 c09_int_range c20_domain_1
-c10_digest_symlen
+c10_digest_symlen c19_filtercap_ascii_8 c13n_bytes_4 c06l_eip1559_symdata
 """.split())
